@@ -477,14 +477,15 @@ func runC34Case(c *mon.Ctx, cs *c34Case, cf *cdnFile, st *c34Stats, sc *scratch)
 	}
 	switch {
 	case err == nil && !identical:
-		// the refuting observation; the class is derived from the outcome
-		fam := strategyFamily(cs.Strategy)
-		sig := "accepted|" + cs.Mode + "|"
-		extra := map[string]any{}
+		// the refuting observation. Signature: mode + how the corrupted answer
+		// differed from the honest one; the shape of the output (prefix, hole,
+		// duplicate) and what the client had been told are witness details, since
+		// with several threads they depend on the schedule.
+		sig := "accepted|" + cs.Mode + "|" + w.shape
+		extra := map[string]any{"first_shortened_answer_ends_at": w.firstCut}
 		L := int64(len(got))
 		switch {
 		case L < size && bytes.Equal(got, cf.f.data[:L]):
-			// a strict prefix was "completed": where was it cut and what did the client know?
 			onBoundary, held := false, false
 			for _, x := range w.windows {
 				if x.Off == L {
@@ -496,19 +497,14 @@ func runC34Case(c *mon.Ctx, cs *c34Case, cf *cdnFile, st *c34Stats, sc *scratch)
 					held = true
 				}
 			}
-			switch {
-			case !onBoundary:
-				sig += "truncated|cut-inside-hash-window"
-			case held:
-				sig += "truncated|hash-at-or-beyond-cut-was-served"
-			default:
-				sig += "truncated|no-hash-at-or-beyond-cut-served"
-			}
+			extra["output"] = "strict prefix of the genuine file"
 			extra["cut_at"] = L
+			extra["cut_on_hash_window_boundary"] = onBoundary
+			extra["hash_window_at_or_after_cut_was_served_during_the_run"] = held
 		case L > size && bytes.Equal(got[:size], cf.f.data):
-			sig += "extended-past-eof"
+			extra["output"] = "genuine file followed by extra bytes"
 		default:
-			sig += "altered|" + fam
+			extra["output"] = "differs inside the file (hole, duplicate or foreign bytes)"
 		}
 		if w.corrupt == 0 {
 			sig = "wrong-content|" + cs.Mode + "|no-corruption-injected"
